@@ -779,7 +779,7 @@ pub fn sanitize_request<T>(
     let mut data = CriticalRequestComponents { range: None };
 
     if let Some((start, end)) = range {
-        if start >= end {
+        if start > end {
             return Err(SanitizeError::RangeNotSatisfiable);
         }
         data.range = Some((start, end + 1));
